@@ -1495,7 +1495,41 @@ func (in *interp) evalMulti(e ast.Expr, st *state) []AV {
 		}
 		return []AV{top}
 	case *ast.IndexExpr:
-		// v[i] of a tracked aggregate is unknown; of a coefficient: stays a view
+		// s[i] of a constant string is a constant byte (out of range: panic)
+		if sv, ok := in.eval1(x.X, st).(avStr); ok {
+			if iv, ok := in.eval1(x.Index, st).(avInt); ok {
+				if iv.v < 0 || iv.v >= int64(len(sv.s)) {
+					return []AV{avPanic{}}
+				}
+				return []AV{avInt{int64(sv.s[iv.v])}}
+			}
+		}
+		return []AV{top}
+	case *ast.SliceExpr:
+		if sv, ok := in.eval1(x.X, st).(avStr); ok && !x.Slice3 {
+			lo, hi := int64(0), int64(len(sv.s))
+			okb := true
+			if x.Low != nil {
+				if v, ok := in.eval1(x.Low, st).(avInt); ok {
+					lo = v.v
+				} else {
+					okb = false
+				}
+			}
+			if x.High != nil {
+				if v, ok := in.eval1(x.High, st).(avInt); ok {
+					hi = v.v
+				} else {
+					okb = false
+				}
+			}
+			if okb {
+				if lo < 0 || hi > int64(len(sv.s)) || lo > hi {
+					return []AV{avPanic{}}
+				}
+				return []AV{avStr{sv.s[lo:hi]}}
+			}
+		}
 		return []AV{top}
 	case *ast.TypeAssertExpr:
 		return in.evalMulti(x.X, st)
@@ -1740,6 +1774,11 @@ func (in *interp) evalCall(call *ast.CallExpr, st *state) []AV {
 	}
 	if name == "builtin.panic" {
 		return []AV{avPanic{}}
+	}
+	if name == "builtin.len" && len(args) == 1 {
+		if sv, ok := args[0].(avStr); ok {
+			return []AV{avInt{int64(len(sv.s))}}
+		}
 	}
 	if f, ok := in.intrinsics[name]; ok {
 		if res, ok := f(in, st, call, recv, args); ok {
